@@ -278,7 +278,8 @@ class DigestFlow(object):
             return
         if dict((h[0].lower(), h[1]) for h in hs).get('host') != 'localhost:8080':
             return
-        if sent['method'] in ('POST', 'PUT') and dict((h[0].lower(), h[1]) for h in hs).get('content-length') != str(len(sent.get('body', ''))):
+        # request.methods_with_bodies: the body is processed (411 without a length) before the tool runs
+        if sent['method'] in ('POST', 'PUT', 'PATCH') and dict((h[0].lower(), h[1]) for h in hs).get('content-length') != str(len(sent.get('body', ''))):
             return
         if obs['status'] >= 598:
             return
@@ -298,6 +299,77 @@ class DigestFlow(object):
             ctx.count('dflow:%s' % status)
             if m != str(status):
                 ctx.disagree(dict(case, line=line), status, m, 'digest_auth: status differs from the model')
+        self.items = []
+
+
+def bflow_line(header):
+    """Driver line for a request to the Basic resource: what RFC 7617 + the stdlib say about the header."""
+    import base64
+    import unicodedata
+    from . import c07
+    if header is None:
+        return 'bflow 000000 -'
+    seen = seen_by_tool(header)
+    if seen is None:
+        return None
+    has_space = ' ' in seen
+    scheme, _, params = seen.partition(' ')
+    basic = scheme.lower() == 'basic'
+    asc = params.isascii()
+    b64, colon, ok = '-', False, False
+    if has_space and basic and asc:
+        try:
+            raw = base64.b64decode(params.encode('ascii'))
+            try:
+                text = raw.decode('utf-8')
+            except UnicodeDecodeError:
+                text = raw.decode('latin-1')
+            text = unicodedata.normalize('NFC', text)
+            colon = ':' in text
+            if colon:
+                user, pw = text.split(':', 1)
+                ok = app.USERS.get(user) == pw
+        except Exception as e:     # noqa: the class is the decoder's outcome
+            b64 = c07._cls_name(e)
+    bits = ''.join('1' if b else '0' for b in (True, has_space, basic, asc, colon, ok))
+    return 'bflow %s %s' % (bits, b64)
+
+
+class BasicFlow(object):
+    def __init__(self):
+        self.items = []
+
+    def observe(self, case, obs):
+        sent = obs.get('sent') or case
+        if sent['path'] not in ('/basic', '/d/basic') or sent.get('qs') or sent.get('body'):
+            return
+        hs = sent.get('headers') or []
+        names = [h[0].lower() for h in hs]
+        if any(n not in ('host', 'authorization', 'content-type', 'content-length') for n in names) or names.count('host') != 1:
+            return
+        hd = dict((h[0].lower(), h[1]) for h in hs)
+        if sent['method'] in ('POST', 'PUT', 'PATCH') and hd.get('content-length') != '0':
+            return
+        if hd.get('host') != 'localhost:8080' or names.count('authorization') > 1 or hd.get('content-length', '0') != '0' \
+                or hd.get('content-type', 'application/x-www-form-urlencoded') != 'application/x-www-form-urlencoded':
+            return
+        if obs['status'] >= 598:
+            return
+        header = hd.get('authorization')
+        line = bflow_line(header.strip() if header is not None else None)
+        if line is None:
+            return
+        self.items.append((case, 500 if obs['status'] >= 500 else obs['status'], line))
+
+    def flush(self, ctx):
+        if not self.items:
+            return
+        out = ctx.model([it[2] for it in self.items])
+        for (case, status, line), m in zip(self.items, out or []):
+            ctx.compared()
+            ctx.count('bflow:%s' % status)
+            if m != str(status):
+                ctx.disagree(dict(case, line=line), status, m, 'basic_auth: status differs from the model')
         self.items = []
 
 
@@ -445,6 +517,11 @@ def replay_case(ctx, case):
             ctx.oracle_fail(case, 'SizedReader.finish raised %s' % real[4:], '_cpreqbody:finish:' + real[4:])
     elif 'bind' in case:
         real, model = case.get('bind'), (ctx.model([case['bind']]) or [None])[0]
+    elif 'unq' in case:
+        from cherrypy._cpreqbody import unquote_plus
+        b = case['unq'].encode('latin-1')
+        real = unquote_plus(b).hex() or '-'
+        model = (ctx.model(['unq %s' % (b.hex() or '-')]) or [None])[0]
     elif 'respenc' in case:
         p11, s = case['respenc']
         kind, val = c07.resp_encode_real(p11, s)
@@ -674,3 +751,43 @@ def trailer_stream(ctx, n):
         ctx.compared()
         if out[i] != real:
             ctx.disagree({'trailers': [l.decode('latin-1') for l in ls]}, real, out[i], 'SizedReader.finish: outcome differs')
+
+
+# ----------------------------------------------------------------------------------------------
+# _cpreqbody.unquote_plus (bytes)
+# ----------------------------------------------------------------------------------------------
+UNQ_ALPHABET = [b'0', b'9', b'a', b'f', b'A', b'F', b'g', b'G', b' ', b'\t', b'\n', b'\x0b', b'+', b'-', b'_', b'x', b'%',
+                b'\xe9', b'\x00', b'\xff', b'1', b'c', b'3']
+
+
+def unq_stream(ctx, n):
+    try:
+        from cherrypy._cpreqbody import unquote_plus
+    except (ImportError, AttributeError) as e:
+        return _moved(ctx, 'unquote_plus', e)
+    rng = ctx.rng
+    cases = []
+    for a in UNQ_ALPHABET:
+        cases.append(b'%' + a)
+        for b in UNQ_ALPHABET:
+            cases.append(b'%' + a + b)
+            if rng.random() < 0.3:
+                cases.append(b'k' + b'%' + a + b + b'v%' + b + a)
+    for _ in range(n):
+        cases.append(b''.join(gen.pick(rng, UNQ_ALPHABET + [b'%', b'%', b'%c3', b'%a9']) for _i in range(rng.choice([0, 1, 2, 3, 5, 9]))))
+    out = ctx.model(['unq %s' % (c.hex() or '-') for c in cases])
+    for i, c in enumerate(cases):
+        try:
+            real = unquote_plus(c).hex() or '-'
+        except Exception as e:      # noqa
+            real = 'err:' + type(e).__name__
+        ctx.case({'unq': c.decode('latin-1')}, nontrivial=True, key='unq ' + c.hex())
+        ctx.count('unq:' + ('err' if real.startswith('err:') else 'ok'))
+        if real.startswith('err:'):
+            ctx.oracle_fail({'unq': c.decode('latin-1')}, 'unquote_plus(%r) raised %s' % (c, real[4:]), '_cpreqbody:unquote_plus:' + real[4:])
+            continue
+        if out is None:
+            continue
+        ctx.compared()
+        if out[i] != real:
+            ctx.disagree({'unq': c.decode('latin-1')}, real, out[i], '_cpreqbody.unquote_plus: result differs')
